@@ -110,6 +110,17 @@ func checkC07(c *Check) {
 			if commaOK {
 				g = union(g, edgesWhere(sh, cBool(vExtract(1, vIs(lk))), true))
 			}
+			// … or on the present edge of an earlier comma-ok lookup of the same table under the same key (the
+			// table is not written while serving: C05)
+			allInstrs(sh, func(in2 ssa.Instruction) {
+				l2, isL := in2.(*ssa.Lookup)
+				if !isL || !l2.CommaOk || l2 == lk {
+					return
+				}
+				if sameValue(l2.X, lk.X) && sameValue(l2.Index, lk.Index) {
+					g = union(g, edgesWhere(sh, cBool(vExtract(1, vIs(l2))), true))
+				}
+			})
 			ok2, path := guardedBy(sh, g, isInstr(in))
 			if ok2 && len(g) > 0 {
 				c.OK(k, p.Pos(in.Pos()), "method invoked on a map element only on the present/non-nil edge", numInstrs(sh))
